@@ -510,7 +510,7 @@ class Manager:
                 if state.timeout >= 0:
                     self.removeHandler(state.tick_handler, 'generate_events')
 
-        def _on_tick(self):
+        def _on_tick(self, event):
             if state.timeout == 0:
                 self.registerTask(
                     (
@@ -525,8 +525,12 @@ class Manager:
                     # the awaited event never showed up
                     self.removeHandler(_on_event_handler, event_name)
                     state.run = True
+                # the task just registered delivers the TimeoutError
+                event.reduce_time_left(0)
             elif state.timeout > 0:
                 state.timeout -= 1
+                # the timeout counts loop iterations: keep the loop iterating
+                event.reduce_time_left(TIMEOUT)
 
         if not channels:
             channels = (None,)
